@@ -25,7 +25,9 @@ def _gen(*key) -> torch.Generator:
     return torch.Generator().manual_seed(h)
 
 
-def make_model(spec, seed=0, dtype=torch.float32):
+def make_model(spec, seed=0, dtype=torch.float32, nest_from=None):
+    """nest_from = i: the modules from position i on are wrapped in a nested Sequential (same function, same parameter order; the
+    registered names become '0', ..., 'i.0', 'i.1', ... - one name may then be a suffix of another)"""
     layers = []
     for s in spec:
         if s[0] == 'linear':
@@ -42,6 +44,8 @@ def make_model(spec, seed=0, dtype=torch.float32):
             layers.append(torch.nn.BatchNorm1d(s[1]))
         else:
             raise ValueError(s)
+    if nest_from is not None and 0 < nest_from < len(layers):
+        layers = layers[:nest_from] + [torch.nn.Sequential(*layers[nest_from:])]
     m = torch.nn.Sequential(*layers).to(dtype)
     g = _gen('init', seed)
     with torch.no_grad():
